@@ -606,8 +606,10 @@ pub fn install() {
     if DONE.swap(true, Ordering::SeqCst) {
         return;
     }
-    // colour decision pinned in every simulated process, reference included
-    anstream::ColorChoice::Never.write_global();
+    // The colour decision is left at the library's default (anstream's global `Auto`): it is
+    // process state like any other, and a call that changes it must show (seeded change
+    // S21). What is pinned is the environment around it: colour variables removed here, and
+    // every child's stderr is /dev/null (not a terminal), in the reference context too.
     for v in ["CLICOLOR", "CLICOLOR_FORCE", "NO_COLOR", "PRQL_VERSION_OVERRIDE"] {
         std::env::remove_var(v);
     }
